@@ -1157,6 +1157,23 @@ def extra(ctx):
                     ctx.call("remove_tilts", ts.remove_tilts, np.array(orc.from_nyx(nyx, o_in), order="C"), idx if q % 2 else np.array(idx),
                              numbered_from_1=from1, input_order=o_in, output_order=o_out)
                     cnt += 1
+                    if (n + q) % 3 == 0:
+                        # the numbering flag given POSITIONALLY in the documented third slot (tilt_stack, idx_to_remove, numbered_from_1):
+                        # judged in the driver against the documented meaning, independent of how the function binds its arguments
+                        okp, rp = ctx.call("remove_tilts", ts.remove_tilts, np.array(orc.from_nyx(nyx, "xyz"), order="C"), list(idx), from1)   # default orders: x,y,n in and out
+                        if okp:
+                            keep = [p for p in range(n) if p not in s0]
+                            try:
+                                gp = np.asarray(rp)
+                                wantp = orc.from_nyx(nyx[keep], "xyz")
+                                good = gp.shape == wantp.shape and bool(np.array_equal(gp, wantp))
+                            except Exception:
+                                good = False
+                            ctx.check("remove_tilts_positional_flag", good, {"n": n, "idx_to_remove": idx[:12], "numbered_from_1_positional": from1,
+                                                                              "expected_kept_0based": keep[:12]})
+                        else:
+                            ctx.check("remove_tilts_positional_flag", False, {"n": n, "idx_to_remove": idx[:12], "numbered_from_1_positional": from1,
+                                                                              "raised": True})
     ctx.extra["exhaustive: remove_tilts single index / all-but-one, n = 2..25, 0- and 1-based"] = cnt
     # split and flips for every n = 2..25; sort for every rotation of an ascending angle list
     cnt = 0
